@@ -120,7 +120,7 @@ def do_step(step, objs):
             return "%s:%s:%s" % (op, ver, step[2]), ("constructed" if len(step) > 3 and step[3] == "bare" else dig(observe(obj, ver))), "-", len(objs) - 1
         if op == "text":
             res = parse_cvss_from_text(unesc(step[1]))
-            return "text:%s" % step[1], dig(sorted([type(r).__name__, r.clean_vector()] for r in res)), "-", None
+            return "text:%s" % step[1], dig(sorted([type(r).__name__, r.vector, r.clean_vector()] for r in res)), "-", None
         if op == "call":
             k, acc = step[1], step[2]
             if k >= len(objs) or objs[k] is None:
